@@ -80,8 +80,20 @@ def modelStep (s : St) (ts : List String) : St × Option String :=
       | none => (setRes s name { rule := rule } { cbPart := cbPart, m := m, E := E }, some "ok")
       | some (r, t) =>
         -- an equal breaker rule keeps every node breaker (`BuildResourceCircuitBreaker` reuses equal ones)
-        if t.cbPart = cbPart then (setRes s name { r with rule := rule } { cbPart := cbPart, m := m, E := E }, some "ok")
-        else (s, some "bad-op")
+        let nt : RuleText := { cbPart := cbPart, m := m, E := E }
+        if t.cbPart = cbPart then (setRes s name { r with rule := rule } nt, some "ok") else
+        -- `Rule.isEqualsTo` (base fields; MaxAllowedRtMs only for the slow-request strategy; thresholds by `Float64Equals`)
+        let nth (l : List String) (i : Nat) : String := l.getD i ""
+        let same (i : Nat) : Bool := nth t.cbPart i == nth cbPart i
+        let baseEq := same 0 && same 1 && same 2 && same 3 && same 4 && same 7
+        let thrOld := ((parseFbits? (nth t.cbPart 6)).getD 0.0)
+        let equalTo := baseEq && (strat ≠ 0 || same 5) && ((thrOld - thrF).abs < precision)
+        if equalTo then
+          -- the old breakers stay bound to the old rule; only claimed when that is indistinguishable (same threshold bits)
+          if same 6 then (setRes s name { r with rule := rule } nt, some "ok") else (s, some "bad-op")
+        else
+          -- `isStatReusable`: strategy, interval and (raw) bucket count unchanged
+          (setRes s name (r.rebuild rule s.now (same 0 && same 3 && same 4)) nt, some "ok")
     | _, _, _, _, _, _, _, _, _, _ => (s, some "bad-op")
   | ["clock", t] => match t.toNat? with
     | some t => if s.now ≤ t then ({ s with now := t }, none) else (s, some "bad-op")
